@@ -616,6 +616,8 @@ pub trait Backend: Send + Sync {
 
     /// parse `s` as the given artifact kind and re-display it
     fn reparse(&self, a: Artifact, s: &str) -> Out<String>;
+    /// parse two key ids: (a == b, a.cmp(b), hash(a) == hash(b), a.as_bytes(), b.as_bytes(), set semantics ok)
+    fn id_relations(&self, a: Artifact, s1: &str, s2: &str) -> Out<(bool, i8, bool, [u8; 33], [u8; 33], bool)>;
     /// serde: (serde_json::to_string of the parsed value, from_str(that) re-displayed)
     fn serde_roundtrip(&self, a: Artifact, s: &str) -> Out<(String, String)>;
     /// parse a JSON document (string literal) into the artifact type via serde
@@ -1206,6 +1208,44 @@ impl<V: Full> Backend for B<V> {
                 Artifact::PwSecret => PasswordWrappedKey::<V, Secret>::from_str(s)?.to_string(),
                 Artifact::Seal => SealedKey::<V>::from_str(s)?.to_string(),
             })
+        })
+    }
+
+    fn id_relations(&self, a: Artifact, s1: &str, s2: &str) -> Out<(bool, i8, bool, [u8; 33], [u8; 33], bool)> {
+        fn rel<V: IdVersion, K: KeyType>(s1: &str, s2: &str) -> Result<(bool, i8, bool, [u8; 33], [u8; 33], bool), PasetoError> {
+            use std::hash::{BuildHasher, Hash, Hasher};
+            let a = KeyId::<V, K>::from_str(s1)?;
+            let b = KeyId::<V, K>::from_str(s2)?;
+            let bh = std::collections::hash_map::RandomState::new();
+            let h = |x: &KeyId<V, K>| {
+                let mut st = bh.build_hasher();
+                x.hash(&mut st);
+                st.finish()
+            };
+            let cmp = match a.cmp(&b) {
+                std::cmp::Ordering::Less => -1,
+                std::cmp::Ordering::Equal => 0,
+                std::cmp::Ordering::Greater => 1,
+            };
+            // copies and clones are the same id; sets deduplicate by bytes
+            let c = a;
+            let mut bs = std::collections::BTreeSet::new();
+            bs.insert(a);
+            bs.insert(b);
+            bs.insert(c.clone());
+            let mut hs = std::collections::HashSet::new();
+            hs.insert(a);
+            hs.insert(b);
+            hs.insert(c);
+            let want = if a.as_bytes() == b.as_bytes() { 1 } else { 2 };
+            let sets_ok = bs.len() == want && hs.len() == want && a.partial_cmp(&b) == Some(a.cmp(&b));
+            Ok((a == b, cmp, h(&a) == h(&b), *a.as_bytes(), *b.as_bytes(), sets_ok))
+        }
+        guard(|| match a {
+            Artifact::Lid => rel::<V, Local>(s1, s2),
+            Artifact::Pid => rel::<V, Public>(s1, s2),
+            Artifact::Sid => rel::<V, Secret>(s1, s2),
+            _ => harness_err("id_relations: not an id artifact"),
         })
     }
 
